@@ -107,12 +107,17 @@ def problem_class(mods):
             self.fn = fn
             self.started = []       # every point at which an evaluation was attempted
             self.done = []          # (point, value) of completed evaluations
+            self.new_holder = False # True: Calculate returns a NEW FunctionValue instead of filling the supplied one
 
         def Calculate(self, point, functionValue):
             ys = list(point.floatVariables)
             self.started.append(ys)
             v = self.fn(ys, len(self.started) - 1)
             self.done.append((ys, v))
+            if self.new_holder:
+                out = type(functionValue)()
+                out.value = v
+                return out
             functionValue.value = v
             return functionValue
     return FnProblem
@@ -340,6 +345,8 @@ def search_info_clauses(obs, done, N, image=None):
                     AND(EQ(obs['zs'][i], done[hit][1]), EQ(obs['values'][i], done[hit][1]))))
     if image is not None:
         for i in range(n):
+            if len(obs['points'][i]) > 1 and not (concrete(xs[i]) or (hasattr(xs[i], 'const') and xs[i].const() is not None)):
+                continue        # N >= 2 and a symbolic coordinate: re-running the descent would fork once per cell (the image clause is C07's)
             img = image(xs[i])
             out.append(('IMAGE: stored point is the evolvent image of its coordinate',
                         AND(*[EQ(a, b) for a, b in zip(img, obs['points'][i])])))
@@ -372,8 +379,10 @@ def optimum_clauses(sol, done, where):
 
 # ----------------------------------------------------------------------------------------------
 # a real Solver in an arbitrary state satisfying the representation invariant
-def make_solver(mods, problem, r, eps, iters_limit, density=None, refine=False):
+def make_solver(mods, problem, r, eps, iters_limit, density=None, refine=False, start_point=None):
     kw = dict(eps=eps, r=r, itersLimit=iters_limit, refineSolution=refine)
+    if start_point is not None:
+        kw['startPoint'] = mods.trial.Point(list(start_point), [])
     if density is not None:
         kw['evolventDensity'] = density
     params = mods.params.SolverParameters(**kw)
@@ -771,8 +780,15 @@ def run_clauses(mods, solver, prob, listener, want, r, N, fresh_image=None):
         out += [('C06 ' + l, c) for l, c in search_info_clauses(observe(solver), prob.done, N, image=fresh_image)]
     if 'C03' in want:
         sol = solver.GetResults()
-        out.append(('C03 COUNT: evaluations made = reported global trials', AND(sol.numberOfGlobalTrials == len(prob.done),
-                                                                              len(prob.started) == len(prob.done))))
+        nloc = sol.numberOfLocalTrials
+        if nloc:
+            # with refinement: the global count is the number of search trials (what the listener was told), the refinement's own evaluations
+            # (nfev + the final re-evaluation) are extra objective calls and never global trials
+            out.append(('C03 COUNT: reported global trials = trials of the global search, untouched by the refinement',
+                        AND(sol.numberOfGlobalTrials == len(trials), EQ(len(prob.done), len(trials) + nloc + 1))))
+        else:
+            out.append(('C03 COUNT: evaluations made = reported global trials', AND(sol.numberOfGlobalTrials == len(prob.done),
+                                                                                  len(prob.started) == len(prob.done))))
         out += [('C03 ' + l, c) for l, c in accuracy_clauses(trials, sol.solutionAccuracy, N)]
     return out
 
@@ -1073,6 +1089,7 @@ EXC_TYPES = {
     'AssertionError()': lambda: AssertionError(),
     'ZeroDivisionError(msg)': lambda: ZeroDivisionError('float division by zero'),
     'OverflowError(msg)': lambda: OverflowError('math range error'),
+    'StopIteration()': lambda: StopIteration(),
 }
 
 
@@ -1087,11 +1104,18 @@ def run_scenario(mods, cfg, objective, r, eps, prints=None, after_create=None):
     N = cfg['N']
     lower, upper = cfg.get('box') or NBOXES[N]
     prob = P(N, lower, upper, objective)
-    s = make_solver(mods, prob, r, eps, cfg.get('iters_limit', 10 ** 6), density=cfg.get('density'), refine=cfg.get('refine', False))
+    prob.new_holder = bool(cfg.get('new_holder'))
+    s = make_solver(mods, prob, r, eps, cfg.get('iters_limit', 10 ** 6), density=cfg.get('density'), refine=cfg.get('refine', False),
+                    start_point=cfg.get('start_point'))
     ctx = {'solver': s, 'prob': prob, 'N': N, 'r': r, 'eps': eps, 'cfg': cfg, 'returned': [], 'prints': prints,
            'lower': lower, 'upper': upper, 'polls': []}
     sib = None
-    if cfg.get('sibling'):
+    if cfg.get('sibling') == 'same-problem':
+        # a second solver on the SAME Problem object, another evolvent density and reliability parameter
+        sib = make_solver(mods, prob, 3.0, 1e-9, 12, density=(cfg.get('density') or 10) + 2)
+        ctx['sibling'] = sib
+        ctx['sibling_shares_problem'] = True
+    elif cfg.get('sibling'):
         # another live solver (different dimension unless 'same', different box, its own objective)
         N2 = N if cfg['sibling'] == 'same' else (N % 3) + 1
         lo2 = [v - 1.25 for v in NBOXES[N2][0]]
@@ -1265,16 +1289,17 @@ def scenario_clauses(mods, ctx, want):
     def fresh_image(x):
         return list(Ev(lower, upper, N, s.evolvent.evolventDensity).GetImage(x))
     out = run_clauses(mods, s, prob, L, [w for w in want if w in ('C02', 'C04', 'C06', 'C03')], r, N,
-                      fresh_image=fresh_image if N == 1 else None) if L is not None else []
+                      fresh_image=fresh_image) if L is not None else []
     cfg = ctx['cfg']
     if 'C03' in want and L is not None:
         trials = trials_of(L)
         solves = [x for x in ctx['returned'] if x[0] == 'solve']
         if solves:
             first = solves[0]
-            out += [('C03 ' + l, c) for l, c in stop_clauses(trials[:first[4]], ctx['eps'], cfg.get('iters_limit', 10 ** 6), N, n_before_solve=first[3])]
-            out.append(('C03 RETURN: Solve returns the solution with the reported number of trials = evaluations made',
-                        AND(first[2]['trials'] == first[4], len(prob.done) >= first[4] - (1 if cfg.get('fail') else 0))))
+            out += [('C03 ' + l, c) for l, c in stop_clauses(trials[:first[4]] if not cfg.get('refine') else trials, ctx['eps'], cfg.get('iters_limit', 10 ** 6), N, n_before_solve=first[3])]
+            if not cfg.get('refine'):
+                out.append(('C03 RETURN: Solve returns the solution with the reported number of trials = evaluations made',
+                            AND(first[2]['trials'] == first[4], len(prob.done) >= first[4] - (1 if cfg.get('fail') else 0))))
             for later in solves[1:]:
                 out.append(('C03 AGAIN: Solve on a finished solver performs no further trial', later[3] == later[4]))
         if ctx['prints'] is not None and not cfg.get('fail'):
@@ -1358,7 +1383,8 @@ def isolation_clauses(mods, ctxs, want):
     href = ref['prob'].done
     sib_ref = None
     for ctx in ctxs[1:]:
-        h = ctx['prob'].done
+        # when the other solver works on the SAME Problem object the call log is shared: read this solver's trials from its own record
+        h = [(pt, z) for (x, z, pt) in history(ctx)] if ctx.get('sibling_shares_problem') else ctx['prob'].done
         out.append(('C12 LENGTH: the solver makes the same number of trials with or without other solvers around', len(h) == len(href)))
         for i in range(min(len(h), len(href))):
             out.append(('C12 SEQUENCE: trial %d is unchanged by other solvers' % (i + 1),
